@@ -9,16 +9,19 @@ PAIRS_QUICK = [
     ('K0', 'K3', ['unic_langid_impl', 'unic_locale_impl', 'unic_langid', 'unic_locale', 'unic_langid_macros', 'unic_locale_macros',
                   'unic_langid_macros_impl', 'unic_locale_macros_impl'], 'all features'),
 ]
+PAIRS_QUICK += [
+    # the macros feature on its own (facade crates): must not drag in anything that changes the impl crates
+    ('K12', 'K5', ['unic_langid', 'unic_langid_impl'], 'unic-langid macros'),
+    ('K13', 'K7', ['unic_locale', 'unic_locale_impl', 'unic_langid_impl'], 'unic-locale macros'),
+]
 PAIRS_THOROUGH = PAIRS_QUICK + [
     ('K0', 'K4', ['unic_langid_impl'], 'likelysubtags+serde'),
     ('K1', 'K4', ['unic_langid_impl'], 'serde on top of likelysubtags'),
     ('K2', 'K4', ['unic_langid_impl'], 'likelysubtags on top of serde'),
-    ('K12', 'K5', ['unic_langid', 'unic_langid_impl'], 'unic-langid macros'),
     ('K12', 'K9', ['unic_langid', 'unic_langid_impl'], 'unic-langid serde'),
     ('K12', 'K10', ['unic_langid', 'unic_langid_impl'], 'unic-langid likelysubtags'),
     ('K12', 'K6', ['unic_langid', 'unic_langid_impl'], 'unic-langid all'),
     ('K5', 'K6', ['unic_langid', 'unic_langid_impl', 'unic_langid_macros', 'unic_langid_macros_impl'], 'unic-langid serde+likelysubtags on top of macros'),
-    ('K13', 'K7', ['unic_locale', 'unic_locale_impl', 'unic_langid_impl'], 'unic-locale macros'),
     ('K13', 'K11', ['unic_locale', 'unic_locale_impl', 'unic_langid_impl'], 'unic-locale likelysubtags'),
     ('K13', 'K8', ['unic_locale', 'unic_locale_impl', 'unic_langid_impl'], 'unic-locale all'),
     ('K7', 'K8', ['unic_locale', 'unic_locale_impl', 'unic_langid_impl', 'unic_locale_macros', 'unic_locale_macros_impl'], 'unic-locale likelysubtags on top of macros'),
@@ -43,7 +46,11 @@ def run(tier, replay=None):
                 rep.ob('diff:%s:%s->%s:present' % (cr, base, feat), 'DIFF-ANCHOR', cr, '-', 'crate %s present in %s and %s' % (cr, base, feat), False,
                        'ANCHOR-MISSING: crate not built in one of the configurations')
                 continue
-            res = diff.compare_crate(fb.crates[cr], ff.crates[cr], EXCEPTIONS)
+            # the documented refinement exists only where the likelysubtags feature of unic-langid-impl is switched on by this pair
+            lb = [c for c in fb.crates['unic_langid_impl'].cfgs if 'likelysubtags' in str(c)] if 'unic_langid_impl' in fb.crates else []
+            lf = [c for c in ff.crates['unic_langid_impl'].cfgs if 'likelysubtags' in str(c)] if 'unic_langid_impl' in ff.crates else []
+            exc = EXCEPTIONS if (lf and not lb) else {}
+            res = diff.compare_crate(fb.crates[cr], ff.crates[cr], exc)
             programs += res['shared']
             shared_total += res['shared']
             key = 'diff:%s:%s' % (cr, label)
